@@ -100,7 +100,14 @@ func c12Cbuf(c *Ctx) {
 		m := c.machine()
 		var obj *fold.Obj
 		var forwarded []string
+		writes, failedAt := 0, 0 // destination writes on this path; which one failed (0: none)
 		m.Models["invoke:(io.Writer).Write"] = func(cl *fold.Call) fold.Val {
+			writes++
+			// every write to the destination may fail
+			if failedAt == 0 && cl.M.Choose(fmt.Sprintf("dst%d.err", writes), 2) == 1 {
+				failedAt = writes
+				return fold.Tuple{fold.K(0), fold.Sym{Name: "dst-error", NonNil: true}}
+			}
 			if s, ok := cl.Args[1].(fold.SliceV); ok {
 				forwarded = append(forwarded, laneNamesPlain(cl.M.Elems(s))...)
 				return fold.Tuple{fold.K(s.Len), fold.Nil{}}
@@ -111,6 +118,7 @@ func c12Cbuf(c *Ctx) {
 		var problems []string
 		ps := m.Explore(f, func(mm *fold.Machine) []fold.Val {
 			forwarded = nil
+			writes, failedAt = 0, 0
 			s := fold.SymOfType("c", cb).(fold.Struct)
 			b := make([]fold.Val, 4)
 			for i := range b {
@@ -132,6 +140,19 @@ func c12Cbuf(c *Ctx) {
 			return []fold.Val{fold.Ref{O: obj}, mm.NewBytes("p", el)}
 		}, func(mm *fold.Machine, p *fold.Path) {
 			s, _ := mm.Load(fold.Ref{O: obj}).(fold.Struct)
+			if failedAt > 0 {
+				// the first failure sticks: nothing more goes to the destination (the stream would have
+				// a hole), and the error is kept and returned - a later write that succeeds must not
+				// wipe it out
+				ret, _ := p.Ret.(fold.Tuple)
+				if writes != failedAt {
+					problems = append(problems, fmt.Sprintf("fill=%d write=%d: destination write %d failed and %d more followed: the output has a hole", fill, n, failedAt, writes-failedAt))
+				}
+				if fold.Show(s.F[bErr]) != "dst-error" || len(ret) != 2 || c.errName(ret[1]) != "dst-error" {
+					problems = append(problems, fmt.Sprintf("fill=%d write=%d: destination write %d failed, but the error kept is %s and the one returned %s", fill, n, failedAt, fold.Show(s.F[bErr]), fold.Show(p.Ret)))
+				}
+				return
+			}
 			kn, _ := s.F[bN].(fold.Int)
 			held := laneNamesPlain(s.F[bBuf].(fold.Arr).E)
 			var all []string
